@@ -56,13 +56,20 @@ class Dev:
         return False
 
 
-def gen(rng):
-    pins = list(range(0, 14))      # incl. 0 and 1: a pin number is data, not a truth value
+def gen(rng, force=None, redecl=False):
+    """force = (kind, place): the first device is of that kind, on the LOWEST pin numbers (0, 1, 2 — a pin number is data, not a
+    truth value), declared at `place`, and used at least once in the loop"""
+    pins = list(range(0, 14))
     rng.shuffle(pins)
+    if force:
+        pins = sorted(pins, reverse=True)      # pop() hands out 0, 1, 2, …
     apins = [14, 15, 16, 17]
     devs = [Dev("serial", "mon", [])]
     counts = 0
-    for kind in rng.sample(["led", "rgb", "servo", "motor", "buzzer", "button", "pot", "ultra", "lcd", "led", "servo", "button"], rng.randint(1, 5)):
+    kinds = rng.sample(["led", "rgb", "servo", "motor", "buzzer", "button", "pot", "ultra", "lcd", "led", "servo", "button"], rng.randint(1, 5))
+    if force:
+        kinds = [force[0]] + [k for k in kinds if k != force[0]][:2]
+    for kind in kinds:
         need = {"led": 1, "rgb": 3, "servo": 1, "motor": 3, "buzzer": 1, "button": 1, "pot": 0, "ultra": 2, "lcd": 0}[kind]
         if len(pins) < need:
             continue
@@ -84,12 +91,14 @@ def gen(rng):
     def nt():
         tag[0] += 1
         return tag[0]
-    for d in devs[1:]:
+    for j, d in enumerate(devs[1:]):
         where = "loop" if (d.kind in LOOP_OK and rng.random() < 0.4) else "setup"
+        if force and j == 0:
+            where = force[1]
         (setup if where == "setup" else loop).append(("decl", d))
     # a Led bound before the loop may be bound again, to another pin, at the top of the body
     for d in [x for _, x in setup if x.kind == "led"]:
-        if pins and rng.random() < 0.3:
+        if pins and (redecl or rng.random() < 0.3):
             d.loop_pins = [pins.pop()]
             loop.append(("decl2", d))
     # loop declarations first (top of the body), then statements
@@ -101,6 +110,8 @@ def gen(rng):
     for _ in range(rng.randint(1, 6)):
         d = rng.choice(alld)
         body_l.append(("use", d, nt()) if d.use(0) and rng.random() < 0.7 else ("stmt", nt()))
+    if force and len(devs) > 1 and devs[1].use(0):
+        body_l.append(("use", devs[1], nt()))
     # interleave uses after their declarations in setup
     items_s = []
     pending = list(body_s)
@@ -298,7 +309,9 @@ def run(ctx: Ctx) -> int:
     ctx.prove(["Reduino.Props.C05"])
     common.fresh_import()
     rng = ctx.rng
-    cases = [gen(rng) for _ in range(ctx.n(80, 1000))]
+    cases = [gen(rng, force=(k, pl)) for k in sorted(LOOP_OK | {"buzzer"}) for pl in (("setup", "loop") if k in LOOP_OK else ("setup",))]
+    cases += [gen(rng, force=("led", "setup"), redecl=True) for _ in range(3)]      # a Led bound again, to another pin, at the top of the loop body
+    cases += [gen(rng) for _ in range(ctx.n(80, 1000))]
     srcs = [script(s, l) for _, s, l in cases]
     passes = [rng.choice([0, 1, 3]) for _ in cases]
     outs = [cxx.transpile(s) for s in srcs]
